@@ -611,6 +611,17 @@ def cmp_struct(run, S, name, got, exp, rule, where=None, tag='ret', hyp=None):
                 if not ok and ACTIVE_PATH_DIFFS:
                     # equal whenever the path's own equalities (and the standing hypotheses) hold
                     ok = equal_under(el_of(x), el_of(y), list(ACTIVE_PATH_DIFFS))
+                if ok and DEFINEDNESS:
+                    # equal as rational functions is not enough: the code must not divide by something that can vanish where the
+                    # specified value exists
+                    und = A.uncovered_denominators(el_of(x), el_of(y), list(ACTIVE_NONZERO))
+                    if und:
+                        if DEFINEDNESS == 'report':
+                            import sys
+                            sys.stderr.write('DEFINEDNESS %s: %s\n' % (key, [A.show(u, 6) for u in und][:3]))
+                        else:
+                            ok = False
+                            x = 'divides by %s, which can vanish where the specified value is defined; value %s' % (', '.join(A.show(u, 6) for u in und[:3]), A.show(el_of(x), 4))
             else:
                 ok = (x == y)
         except (ValueError, ZeroDivisionError) as ex:
@@ -695,6 +706,8 @@ def _leaf_equalities(S, guards):
 
 
 ACTIVE_PATH_DIFFS = []
+ACTIVE_NONZERO = []
+DEFINEDNESS = os.environ.get('VERIF_DEFINEDNESS', 'on')
 
 
 def _poly_form(d, raw=False):
@@ -907,7 +920,27 @@ class path_hyps:
     def __enter__(self):
         self.saved = dict(A.CTX.hyps)
         self.ndiffs = len(ACTIVE_PATH_DIFFS)
+        self.nnz = len(ACTIVE_NONZERO)
         cv = Conv(self.S, field_div=self.field_div)
+        # quantities the path established to be non-zero: `a != b`, a failed exact or approximate equality test (x ~ x always
+        # holds), a strict inequality, `partial_cmp` outcomes other than Equal
+        for kind, tid, want in self.guards:
+            try:
+                if kind == 'ite':
+                    g_ = parse_guard(self.S, cv, tid)
+                    truth = (want is True) != g_.get('neg', False)
+                    if g_['kind'] in ('eq', 'ulps', 'abs_diff', 'relative') and not truth:
+                        ACTIVE_NONZERO.append((g_['a'] - g_['b']).norm())
+                    elif g_['kind'] in ('lt', 'gt') and truth:
+                        ACTIVE_NONZERO.append((g_['a'] - g_['b']).norm())
+                    elif g_['kind'] in ('le', 'ge') and not truth:
+                        ACTIVE_NONZERO.append((g_['a'] - g_['b']).norm())
+                elif kind == 'switch':
+                    t = self.S.terms[tid]
+                    if t[0] == 'a' and t[1] == 'cmp' and len(t[2]) == 2 and want in (0, 2):
+                        ACTIVE_NONZERO.append((cv.el(t[2][0]) - cv.el(t[2][1])).norm())
+            except Exception:
+                pass
         for a, b in _path_eq_pairs(self.S, self.guards):
             try:
                 d = (cv.el(a) - cv.el(b)).norm()
@@ -927,6 +960,7 @@ class path_hyps:
 
     def __exit__(self, *exc):
         del ACTIVE_PATH_DIFFS[self.ndiffs:]
+        del ACTIVE_NONZERO[self.nnz:]
         A.CTX.hyps.clear()
         A.CTX.hyps.update(self.saved)
         return False
